@@ -9,6 +9,7 @@ import (
 
 	"github.com/jdillenkofer/pithos/verifharness/dump"
 	"github.com/jdillenkofer/pithos/verifharness/ev"
+	"github.com/jdillenkofer/pithos/verifharness/gen"
 	"github.com/jdillenkofer/pithos/verifharness/inject"
 	"github.com/jdillenkofer/pithos/verifharness/prog"
 	"github.com/jdillenkofer/pithos/verifharness/run"
@@ -50,7 +51,7 @@ func genCase(t *rapid.T, env *ev.Env) Case {
 	stack := rapid.SampledFrom([]string{"P2", "P1", "P3", "P8", "P10", "P12", "N1"}).Draw(t, "stack")
 	cfg := genCfg(stack)
 	c := Case{Stack: stack, Pre: cfg.Gen(t)}
-	kind := rapid.SampledFrom(victimKinds).Draw(t, "victimKind")
+	kind := victimKinds[(rapid.IntRange(0, 63).Draw(t, "victimKindHi")*64+rapid.IntRange(0, 63).Draw(t, "victimKindLo")*37)%len(victimKinds)]
 	c.Victim = cfg.GenOp(t, kind)
 	// victims mostly act on the hot key / the most recent upload so that they would succeed
 	if rapid.IntRange(0, 3).Draw(t, "victimHot") > 0 {
@@ -59,6 +60,25 @@ func genCase(t *rapid.T, env *ev.Env) Case {
 		c.Victim.IfMatch, c.Victim.IfNoneMatchStar, c.Victim.Supplied = "", false, ""
 		if c.Victim.Manifest != "" {
 			c.Victim.Manifest = "ok"
+		}
+	}
+	// victims that act on a multipart upload get a pending upload with parts to act on
+	switch kind {
+	case prog.OpMpuAbort, prog.OpMpuComplete, prog.OpMpuPart, prog.OpMpuPartCopy:
+		if rapid.IntRange(0, 4).Draw(t, "pendingUpload") > 0 {
+			c.Pre = append(c.Pre, prog.Op{Kind: prog.OpMpuCreate, B: 0, K: 0})
+			np := rapid.IntRange(1, 3).Draw(t, "pendingParts")
+			for pn := 1; pn <= np; pn++ {
+				c.Pre = append(c.Pre, prog.Op{Kind: prog.OpMpuPart, Upload: prog.LastUpload, PartNo: pn, Body: &gen.BodySpec{Kind: "rand", Len: 100 * pn, Seed: uint64(pn)}})
+			}
+			c.Victim.B, c.Victim.K, c.Victim.Upload = 0, 0, prog.LastUpload
+			if kind == prog.OpMpuPart || kind == prog.OpMpuPartCopy {
+				c.Victim.PartNo = rapid.IntRange(1, np+1).Draw(t, "victimPart")
+			}
+			if c.Victim.Manifest != "" {
+				c.Victim.Manifest = "ok"
+			}
+			c.Victim.IfMatch, c.Victim.IfNoneMatchStar, c.Victim.Supplied = "", false, ""
 		}
 	}
 	c.Offset = rapid.IntRange(0, 1000).Draw(t, "offset")
